@@ -440,7 +440,8 @@ def sharing_check(tier: str, stats: Stats, prop: str = 'C16', only: tuple[str, .
             stocked[fname] = raw
         steps = [(f, w) for f in stocked for w in whats]
         for n in range(2, depth + 1):
-            for seq in itertools.product(steps, repeat=n):
+            pool = steps if n <= 3 else [(f, w) for f, w in steps if w in ('base-store', 'base-fetch', 'base-build', 'prog-fetch')]   # depth 4: the reading / diff-base half
+            for seq in itertools.product(pool, repeat=n):
                 if len({f for f, _ in seq}) < 2:
                     continue      # the point is the alternation of kinds
                 if tier == 'quick' and n == depth and seq[-1][1] not in ('base-store', 'base-fetch', 'prog-fetch', 'prog-store'):
